@@ -1,10 +1,10 @@
 """C16 - copy()/data() rebuild an equal, independent object; ids and notes are stable (histories on a live Acl; see harness/aclhist.py, spec AclSem.tla, Trace_Acl.tla)."""
 import random
 
-from harness import core, aclhist
+from harness import core, aclhist, c06
 
 PROP = "C16"
-TRACE_MODULES = ["Trace_Acl"]
+TRACE_MODULES = ["Trace_Acl", "Trace_C06"]
 WEIGHTS = dict(Copy=6, DataRoundTrip=4, SetPlatform=3, SetPortNr=2, SetProtocolNr=2, Resequence=2, Sort=2, Group=2, Ungroup=1, UngroupPorts=1)
 
 
@@ -14,8 +14,28 @@ def run(tier, seed):
     n = 1500 if tier == "quick" else 12000
     jobs = [aclhist.make_history(rng, t, WEIGHTS, nops=rng.randint(2, 8)) for t in range(1, n + 1)]
     aclhist.fill_permutations(rng, jobs)
-    return aclhist.run_histories("C16", jobs, tier, mcs, "operation mix of copy / export-import each followed by a mutation of the twin, and in-place transformations, with user notes on every entry")
+    res = aclhist.run_histories("C16", jobs, tier, mcs, "operation mix of copy / export-import each followed by a mutation of the twin, and in-place transformations, with user notes on every entry")
+    ol, ojobs, oevents, ovstats = c06.object_level(random.Random(seed * 7 + 1), 5000 if tier == "quick" else 60000, "C16.")
+    res["verdicts"] += ol
+    cov = res["coverage"]
+    cov["traces_validated_against_impl"] += len(ojobs)
+    cov["evaluations"] += len(oevents)
+    cov["distinct_nontrivial"] += len({(j["cls"], j["text"]) for j in ojobs})
+    cov["rule"] += " || OBJECT LEVEL: copy() and Class(**data()) of single objects of every exported class followed by mutations of the twins; identifier and note across single-object conversion (Trace_C06)"
+    cov["object_level"] = dict(trace_validation=ovstats, jobs=len(ojobs))
+    return res
 
 
 def replay(path):
-    return aclhist.replay_history(path)
+    import json
+    with open(path) as f:
+        r = json.load(f)
+    if "ops" in r["case"]:
+        return aclhist.replay_history(path)
+    core._init_worker(core.REPO)
+    evs = c06.exec_job(r["case"])
+    verdicts, _ = core.validate("Trace_C06", evs, nchunks=1)
+    mine = [v for v in verdicts if v["clause"].startswith(PROP + ".")]
+    for v in mine:
+        print("REPLAY verdict:", v)
+    return 1 if mine else 0
